@@ -765,11 +765,14 @@ impl DelayNs for PlainHal {
 
 fn drive_delay<H: DelayNs>(h: &mut H, rng: &mut Rng) -> Vec<String> {
     for _ in 0..rng.range(1, 5) {
-        match rng.below(4) {
+        match rng.below(6) {
             0 => h.delay_us((rng.next_u64() % 9_000_000) as u32),
             // more than 4294 ms do not fit one delay_ns call: the upstream body repeats the maximal chunk
             1 => h.delay_ms((rng.next_u64() % 30_000) as u32),
             2 => h.delay_ms((rng.next_u64() % 5) as u32),
+            // exactly at / next to a chunk boundary (k * 4294 ms, k * 4_294_967 us)
+            3 => h.delay_ms((rng.range(1, 7) as u32 * 4294).wrapping_add(rng.below(3) as u32).wrapping_sub(1)),
+            4 => h.delay_us((rng.range(1, 3) as u32 * 4_294_967).wrapping_add(rng.below(3) as u32).wrapping_sub(1)),
             _ => h.delay_ns(rng.next_u64() as u32 % 3),
         }
     }
